@@ -10,7 +10,6 @@ Strings are `List Char`; byte offsets are computed with `utf8Len`.
 -/
 namespace Casbin
 
-abbrev Str := List Char
 
 def utf8Size (c : Char) : Nat :=
   let n := c.toNat
